@@ -18,11 +18,12 @@ SPEC = {
     "required_theorems": [
         "C12_grid2_WF", "C12_grid2_beta2", "C12_grid2_darts", "C12_grid2_faces", "C12_grid2_corners",
         "C12_grid2_vertices", "C12_grid2_area",
-        "C12_split2_WF", "C12_split2_faces", "C12_split2_darts",
+        "C12_split2_WF", "C12_split2_faces", "C12_split2_darts", "C12_split2_corners", "C12_split2_vertices",
+        "C12_split2_area",
         "C12_hex3_WF", "C12_hex3_cells", "C12_hex3_darts",
         "C12_parse2_error_iff", "C12_parse3_error_iff", "C12_parse2_forms_agree", "C12_parse3_forms_agree",
         "C12_build2_forms_agree", "C12_build3_forms_agree",
-        "C12_build2_zero_count_panics", "C12_zero_count_fails", "C12_build2_partial",
+        "C12_build2_zero_count_panics", "C12_zero_count_fails", "C12_build2_partial", "C12_build2_ok",
     ],
     "trusted_base": [
         "Lean 4.33 kernel; axioms propext, Classical.choice, Quot.sound only",
@@ -46,10 +47,9 @@ SPEC = {
 }
 
 SPEC["not_proved"] = [
-    "C12_build2_ok: the mirrored debug_assert on iter_faces().count() never fires for positive counts (needs face_id "
-    "BFS on the grid); the beta1-cycle structure is proved, the face_id-based count is only compared on the box",
-    "C12_split2_corners / C12_split2_vertices: vertex coordinates, vertex<->lattice bijection, CCW triangles of area "
-    "lx*ly/2 for the split grid (topology, triangles and gluing are proved); validated on the box",
+    "C12_build2_split_ok / C12_build3_ok: the mirrored debug_assert on iter_faces().count() = 2*nx*ny / "
+    "iter_volumes().count() = nx*ny*nz never fires (proved for the plain 2-D grid: C12_build2_ok); the cycle/cell "
+    "structure is proved, the id-based counts are compared on the box",
     "C12_hex3_vertices: vertex coordinates and the (nx+1)(ny+1)(nz+1) lattice bijection for the hex grid "
     "(3-D vertex_id walk + generate_hex_offset decoding); validated on the box",
     "C12_hex3_volumes_connected: the 24 darts of a cell are connected through beta1/beta2 (closure under "
